@@ -908,45 +908,54 @@ func c12Placeholders(c *Ctx, r *Report, rule string) {
 	}
 	// the calls of next that hand on a connection built on the header's wrapper
 	n := 0
-	for _, ci := range callsIn(fn) {
-		if !isInvoke(ci, "Handle") || len(ci.Common().Args) != 1 {
-			continue
+	var cands []*ssa.Function
+	for g := range c.reachSync(fn) {
+		if g.Pkg == fn.Pkg {
+			cands = append(cands, g)
 		}
-		var wrapper ssa.Value
-		for _, o := range origins(ci.Common().Args[0], sliceOpts{}) {
-			if call, ok := o.V.(*ssa.Call); ok && strings.HasSuffix(calleeID(call), "layer4.(*Connection).Wrap") && len(call.Call.Args) == 2 {
-				for _, o2 := range origins(call.Call.Args[1], sliceOpts{}) {
-					if strings.Contains(typeStr(o2.V.Type()), "proxyprotocol.Conn") {
-						wrapper = o2.V
+	}
+	sort.Slice(cands, func(i, j int) bool { return fname(cands[i]) < fname(cands[j]) })
+	for _, g := range cands {
+		for _, ci := range callsIn(g) {
+			if !isInvoke(ci, "Handle") || len(ci.Common().Args) != 1 {
+				continue
+			}
+			var wrapper ssa.Value
+			for _, o := range origins(ci.Common().Args[0], sliceOpts{}) {
+				if call, ok := o.V.(*ssa.Call); ok && strings.HasSuffix(calleeID(call), "layer4.(*Connection).Wrap") && len(call.Call.Args) == 2 {
+					for _, o2 := range origins(call.Call.Args[1], sliceOpts{}) {
+						if strings.Contains(typeStr(o2.V.Type()), "proxyprotocol.Conn") {
+							wrapper = o2.V
+						}
 					}
 				}
 			}
-		}
-		if wrapper == nil {
-			continue
-		}
-		var ks []string
-		for k := range keys {
-			ks = append(ks, k)
-		}
-		sort.Strings(ks)
-		for _, k := range ks {
-			n++
-			m := keys[k]
-			isSet := func(in ssa.Instruction) bool {
-				c2, ok := in.(ssa.CallInstruction)
-				if !ok {
-					return false
-				}
-				k2, m2, on := setOf(c2)
-				if k2 != k || m2 != m || on == nil {
-					return false
-				}
-				return strings.Contains(typeStr(on.Type()), "proxyprotocol.Conn") || derivesFrom(on, wrapper)
+			if wrapper == nil {
+				continue
 			}
-			target := func(in ssa.Instruction) bool { return in == ssa.Instruction(ci) }
-			hit := pathFromEntryAvoiding(fn, target, isSet)
-			r.check(hit == nil, rule, fnName, "{"+k+"} before next.Handle", c.ipos(ci), "set from the new connection's "+m+"()", "the connection built on the accepted PROXY header is handed on while the placeholder {"+k+"} still holds what WrapConnection took from the socket ("+m+"() of the load balancer's connection): configuration behind the handler that uses the placeholder - an upstream address, a log field, a matcher value - sees the proxy's address, not the one the header declares")
+			var ks []string
+			for k := range keys {
+				ks = append(ks, k)
+			}
+			sort.Strings(ks)
+			for _, k := range ks {
+				n++
+				m := keys[k]
+				isSet := func(in ssa.Instruction) bool {
+					c2, ok := in.(ssa.CallInstruction)
+					if !ok {
+						return false
+					}
+					k2, m2, on := setOf(c2)
+					if k2 != k || m2 != m || on == nil {
+						return false
+					}
+					return strings.Contains(typeStr(on.Type()), "proxyprotocol.Conn") || derivesFrom(on, wrapper)
+				}
+				target := func(in ssa.Instruction) bool { return in == ssa.Instruction(ci) }
+				hit := pathFromEntryAvoiding(g, target, isSet)
+				r.check(hit == nil, rule, fnName, "{"+k+"} before next.Handle", c.ipos(ci), "set from the new connection's "+m+"()", "the connection built on the accepted PROXY header is handed on while the placeholder {"+k+"} still holds what WrapConnection took from the socket ("+m+"() of the load balancer's connection): configuration behind the handler that uses the placeholder - an upstream address, a log field, a matcher value - sees the proxy's address, not the one the header declares")
+			}
 		}
 	}
 	if n == 0 {
@@ -1238,5 +1247,66 @@ func c14ListsProvisioned(c *Ctx, r *Report, rule string) {
 	}
 	if n == 0 {
 		r.bad(rule, "module", "list fields", "-", "no loop over a list field found in the Provision methods")
+	}
+}
+
+// c18ParsersAssign: "parsing any byte string the parser accepts and serialising the result reproduces the same
+// bytes" - also into an object that was used before. A parser that appends the variable-length rest of its input to
+// what the field already holds (`msg.Content = append(msg.Content, rest...)`) returns, on a used object, the old rest
+// followed by the new one; and where it skips the assignment for an empty rest, the old rest stays.
+func c18ParsersAssign(c *Ctx, r *Report, rule string) {
+	r.rule(rule, "wire-message parsers (FromBytes* methods of the codec packages): a slice field of the receiver is never assigned append(<that same field as it was on entry>, ...): the parsed value replaces what the object held", 2)
+	n := 0
+	for _, fn := range c.Funcs {
+		if fn.Pkg == nil || fn.Signature.Recv() == nil || len(fn.Params) == 0 || !strings.HasPrefix(fn.Name(), "FromBytes") {
+			continue
+		}
+		switch fn.Pkg.Pkg.Path() {
+		case modPath + "/modules/l4openvpn", modPath + "/modules/l4wireguard", modPath + "/modules/l4winbox", modPath + "/modules/l4rdp":
+		default:
+			continue
+		}
+		recv := fn.Params[0]
+		for _, b := range fn.Blocks {
+			for _, in := range b.Instrs {
+				st, ok := in.(*ssa.Store)
+				if !ok {
+					continue
+				}
+				base, sn, f, ok := fieldAddr(st.Addr)
+				if !ok || base != ssa.Value(recv) {
+					continue
+				}
+				if _, isSl := st.Val.Type().Underlying().(*types.Slice); !isSl {
+					continue
+				}
+				n++
+				stale := ""
+				if call, ok := st.Val.(*ssa.Call); ok && calleeID(call) == "builtin append" && len(call.Call.Args) > 0 {
+					// the first operand: a load of the same field that no earlier store of this function overwrote
+					if ld, ok := call.Call.Args[0].(*ssa.UnOp); ok && ld.Op == token.MUL {
+						if b2, s2, f2, ok := fieldAddr(ld.X); ok && b2 == ssa.Value(recv) && s2 == sn && f2 == f {
+							overwritten := false
+							for _, bb := range fn.Blocks {
+								for _, x := range bb.Instrs {
+									if s0, ok := x.(*ssa.Store); ok && s0 != st {
+										if b3, s3, f3, ok := fieldAddr(s0.Addr); ok && b3 == ssa.Value(recv) && s3 == sn && f3 == f && canReach(s0, ld) && !canReach(ld, s0) {
+											overwritten = true
+										}
+									}
+								}
+							}
+							if !overwritten {
+								stale = sn + "." + f
+							}
+						}
+					}
+				}
+				r.check(stale == "", rule, fname(fn), "store "+sn+"."+f, c.ipos(st), "the parsed value replaces the field", "the parser appends the rest of its input to what "+stale+" already holds: parsing into an object that was used before yields the old bytes followed by the new ones, and serialising the result does not reproduce the input")
+			}
+		}
+	}
+	if n == 0 {
+		r.bad(rule, "codec packages", "slice fields", "-", "no parser assigning a slice field found")
 	}
 }
